@@ -10,8 +10,10 @@
 (*           more cells than any MaxCells, the case a region with a large   *)
 (*           CellUnionBound presents to FastCovering                        *)
 (*   "grid"  W2 regions: rectangles of level-G cells of a face, with or    *)
-(*           without a rectangular hole, as loop vertex walks              *)
-(*   "real"  descriptors of float regions (kind, placement, size)          *)
+(*           without a rectangular hole, as loop vertex walks; and the     *)
+(*           polyline through the centres of a row and a column of cells   *)
+(*   "real"  descriptors of float regions (kind, placement, size), and the *)
+(*           special values (empty / full / zero-value objects)            *)
 (*   "rect"  lat-lng rectangles on the pi/8 x pi/4 grid                    *)
 (* For the discrete kinds TLC emits the region's leaf set and what the     *)
 (* postconditions of Coverer.tla need (normal form, least covering sizes), *)
@@ -36,7 +38,6 @@ CONSTANTS OneA,        \* subset of 0..15: low four membership bits (work partit
           RealKinds, RealPlaces, RealSizes, RealEvery,
           RectEvery, RectOff,
           ObsFile      \* trace mode: ndjson written by the harness ("" in generator mode)
-
 
 \* ---- configurations ---------------------------------------------------------
 CfgTuples == {<<mn, mx, md, mc>> : mn \in 0..4, mx \in 0..4, md \in 1..3, mc \in {1, 2, 3, 4, 8, 100}}
@@ -107,6 +108,7 @@ PlaceSet ==
 PlaceLess(a, b) == \E i \in 1..5 : a[i] < b[i] /\ \A j \in 1..(i - 1) : a[j] = b[j]
 PlaceSeq == SetToSortSeq(PlaceSet, PlaceLess)
 NSizes == 12
+ASSUME Len(PlaceSeq) = 51
 
 Init ==
     \/ t \in {<<"one", a>> : a \in OneA}
